@@ -81,6 +81,19 @@ func (c16) Gen(tier string, seed int64, emit func([]Ev)) {
 		}
 	}
 	rec(nil)
+	// every PID around the reserved range x every adaptation_field_control, alone, behind a false sync
+	// byte, and in front of a later good header (so that a wrongly rejected header changes the offset)
+	for _, pid := range []int{0, 1, 2, 3, 4, 5, 6, 0xe, 0xf, 0x10, 0x11, 0x12, 0x100, 0x1003, 0x1004, 0x100f, 0x1010, 0x1ffe, 0x1fff} {
+		for afc := 0; afc < 4; afc++ {
+			hdr := []byte{0x47, byte(pid >> 8), byte(pid), byte(afc<<4) | 0x07}
+			good := []byte{0x47, 0x01, 0x00, 0x10}
+			for k, pre := range [][]byte{{}, {0x47}, {0x00, 0x47, 0x47}, {0x47, 0x00, 0x00}} {
+				st := append(append(append([]byte(nil), pre...), hdr...), 0xAA, 0xBB)
+				emit([]Ev{{"op": "sync", "stream": B(st), "reader": c16Readers[k%len(c16Readers)]}})
+				emit([]Ev{{"op": "sync", "stream": B(append(st, good...)), "reader": c16Readers[(k+1)%len(c16Readers)]}})
+			}
+		}
+	}
 	// random long streams dense in false sync bytes, headers cut by EOF, reserved PIDs
 	for i := 0; i < nrand; i++ {
 		ln := r.Intn(60)
